@@ -199,12 +199,16 @@ thread_local! {
 /// Configurations of the fine-grained exploration: tiny calls (a few hundred function entries each),
 /// every pair of them on two threads sharing rule and data, preemption bound 1.
 pub fn fine_configs(thorough: bool) -> Vec<(String, Vec<Vec<Call>>)> {
-    let d1 = Arc::new(json!({"a": {"b": "ab", "c": "é水"}, "c": {"d": "cd"}, "xs": [1, 2], "n": "0x10", "s": "añb"}));
-    let d2 = Arc::new(json!({"a": {"b": "AB"}, "c": {"d": "CD"}, "xs": [3], "n": 2, "s": "ñu"}));
+    let d1 = Arc::new(json!({"a": {"b": "ab", "c": "é水"}, "c": {"d": "cd"}, "xs": [1, 2], "n": "0x10", "s": "añb", "h.n": {"p": 8080}, "u.n": {"f": "Ada"}}));
+    let d2 = Arc::new(json!({"a": {"b": "AB"}, "c": {"d": "CD"}, "xs": [3], "n": 2, "s": "ñu", "h.n": {"p": 22}, "u.n": {"f": "Bob"}}));
     let mut fam: Vec<(&str, Value)> = vec![
         ("var:a.b", json!({"var": "a.b"})),
         ("var:c.d", json!({"var": "c.d"})),
         ("var:s.1", json!({"var": "s.1"})),
+        // the same escaped key twice in one call, and another escaped key on the other thread: whatever is
+        // remembered about "the last such key" between the two uses can be replaced in between
+        ("var:esc-h", json!({"merge": [{"var": "h\\.n.p"}, {"var": "h\\.n.p"}]})),
+        ("var:esc-u", json!({"merge": [{"var": "u\\.n.f"}, {"var": "u\\.n.f"}]})),
         ("var:miss", json!({"var": ["a.zz", {"var": "c.d"}]})),
         ("missing", json!({"missing": ["a.b", "zz", "c.d"]})),
         ("missing_some", json!({"missing_some": [2, ["a.b", "zz", "c.q"]]})),
@@ -213,9 +217,6 @@ pub fn fine_configs(thorough: bool) -> Vec<(String, Vec<Vec<Call>>)> {
         ("substr", json!({"substr": [{"var": "s"}, -2]})),
         ("arith", json!({"+": [{"var": "n"}, "2"]})),
     ];
-    if !thorough {
-        fam.truncate(3);
-    }
     if thorough {
         fam.extend(vec![
             ("reduce", json!({"reduce": [{"var": "xs"}, {"+": [{"var": "current"}, {"var": "accumulator"}]}, 0]})),
@@ -226,8 +227,19 @@ pub fn fine_configs(thorough: bool) -> Vec<(String, Vec<Vec<Call>>)> {
             ("log", json!({"log": {"var": "a.b"}})),
         ]);
     }
+    // quick tier: all pairs of the first three, plus the one pair of escaped-key rules
+    let extra: Vec<(&str, Arc<Value>)> = if thorough { vec![] } else { fam[3..5].iter().map(|(n, r)| (*n, Arc::new(r.clone()))).collect() };
+    if !thorough {
+        fam.truncate(3);
+    }
     let rules: Vec<(&str, Arc<Value>)> = fam.into_iter().map(|(n, r)| (n, Arc::new(r))).collect();
     let mut v = Vec::new();
+    if extra.len() == 2 {
+        v.push((
+            format!("fine:{}|{}", extra[0].0, extra[1].0),
+            vec![vec![Call { rule: extra[0].1.clone(), data: d1.clone() }], vec![Call { rule: extra[1].1.clone(), data: d1.clone() }]],
+        ));
+    }
     for i in 0..rules.len() {
         for j in i..rules.len() {
             v.push((
